@@ -10,6 +10,7 @@ from harness import gen, model, ref
 from harness.model import T
 from harness.props.c01 import compare_load, load_outcome
 from harness.props.c05 import plain_doc
+from harness.props import v1streams
 
 EXTRA_POOL = ['zzz', 'extra_key', 'extraKey', 'Extra-Key', 'X', 'unknown field', 'q1', '__other__', 'élan', 'a.b', 'x[0]', '',
               'ZZ_TOP', 'né', '1abc', 'with"quote', "it's", 'UPPER', 'tag', '__tag__x']
@@ -71,6 +72,10 @@ def inner_doc(doc, depth):
 
 
 def run(ctx: C.Ctx):
+    v1streams.run_streams(ctx, run_default, run_v1)
+
+
+def run_default(ctx: C.Ctx):
     from dataclass_wizard import fromdict, asdict
     from dataclass_wizard.errors import UnknownKeysError
     rng = ctx.rng
@@ -206,3 +211,295 @@ def check(ctx, case, rep, policy, out, base_out, U, depth, target, built, src, h
 def _in_doc_order(U, d, depth):
     tgt = inner_doc(d, depth)
     return [(k, tgt[k]) for k in tgt if k in U]
+
+
+# --------------------------------------------------------------------------- v1 engine
+
+V1_POLICIES = ['ignore', 'ignore-explicit', 'raise', 'raise', 'warn', 'catchall', 'catchall', 'catchall-default', 'catchall-default']
+
+
+def gen_case_v1(rng, policy, depth, nm):
+    """(root type, target type, where the policy is declared): the target carries `policy` either in its own Meta or — when nested —
+    through the ROOT's Meta (cascade); the root is always bound to the v1 engine"""
+    o = gen.Opts(meta_keys=[], meta_prob=0.0, allow_union=False, allow_nt=False, allow_td=False, allow_cls=False,
+                 leaves=['int', 'str', 'bool', 'float', 'any'], containers=['list', 'dict'], max_fields=4, wizard_prob=0.7,
+                 py_wizard_prob=0.0)
+    ty = gen.gen_cls(rng, 1, o, name=nm('T'))
+    info = ty['info']
+    pol = {}
+    if policy == 'raise':
+        pol['v1_on_unknown_key'] = 'RAISE'
+    elif policy == 'warn':
+        pol['v1_on_unknown_key'] = 'WARN'
+    elif policy == 'ignore-explicit':
+        pol['v1_on_unknown_key'] = 'IGNORE'
+    where = 'own' if depth == 0 or rng.random() < 0.6 else 'root'
+    meta = dict(pol) if where == 'own' else {}
+    if rng.random() < 0.2:
+        (meta if where == 'own' else pol)['v1_key_case'] = 'AUTO'
+    if rng.random() < 0.4:
+        meta['tag'] = nm('tg')
+        if rng.random() < 0.5:
+            meta['tag_key'] = rng.choice(['type', 'kind'])
+    if policy in ('catchall', 'catchall-default'):
+        cf = {'name': 'extras_fld', 'catch_all': True}
+        if policy == 'catchall-default':
+            cf['dflt'] = ['lit', None] if rng.random() < 0.85 else ['dict']
+            cf['factory'] = cf['dflt'][0] != 'lit'
+            info['fields'].append(cf)
+        else:
+            idx = next((i for i, f in enumerate(info['fields']) if f.get('dflt') is not None), len(info['fields']))
+            info['fields'].insert(idx, cf)
+        ty['ftys'].append(['extras_fld', T('any')])
+    target = ty
+    if depth == 0:
+        meta['v1'] = True
+        info['meta'] = meta
+        return ty, target, where
+    info['meta'] = meta or None
+    for lvl in range(depth):
+        outer_meta = None
+        if lvl == depth - 1:
+            outer_meta = dict(pol) if where == 'root' else {}
+            outer_meta['v1'] = True
+        outer = {'k': 'cls', 'info': {'name': nm('O'), 'fields': [{'name': 'inner_obj'}, {'name': 'num', 'dflt': ['lit', 0], 'factory': False}],
+                                      'wizard': True, 'meta': outer_meta},
+                 'ftys': [['inner_obj', ty], ['num', T('int')]]}
+        ty = outer
+    return ty, target, where
+
+
+class _Records:
+    """warnings the library logs while a load runs"""
+
+    def __init__(self):
+        import logging
+        self.records = []
+        outer = self
+
+        class H(logging.Handler):
+            def emit(self, record):
+                outer.records.append(record)
+        self.h = H(level=logging.WARNING)
+        self.log = logging.getLogger('dataclass_wizard')
+
+    def __enter__(self):
+        import logging
+        self.prev = (self.log.propagate, self.log.level)
+        self.log.propagate = False
+        self.log.setLevel(logging.WARNING)      # the library's default level (ERROR) mutes its own warnings
+        self.log.addHandler(self.h)
+        return self
+
+    def __exit__(self, *a):
+        self.log.removeHandler(self.h)
+        self.log.propagate, lvl = self.prev
+        self.log.setLevel(lvl)
+
+
+def run_v1(ctx: C.Ctx):
+    from dataclass_wizard import fromdict, asdict
+    from dataclass_wizard.errors import UnknownKeysError, JSONWizardError
+    rng = v1streams.sub_rng(ctx)
+    gen.SUBS = False
+    ctx.rule = ('v1 engine: policy in {ignore (unset / IGNORE), v1_on_unknown_key RAISE / WARN, CatchAll without default, CatchAll with default '
+                '(None / default_factory)} declared on the class itself or cascading from the root × nesting depth 0..2 × tagged classes loaded '
+                'directly with and without their tag key in the document × a set U of 0..3 extra keys (as in the default stream) × 1..3 repetitions '
+                '× history (class first used by a load / first used by a dump of an instance built in code / reached through a second root class): '
+                'outcome vs the specification (RAISE rejects iff U non-empty and names only unknown keys and the class; WARN logs and loads; '
+                'catch-all holds exactly U in document order, never the tag key, else its default; to_dict writes U back), vs the Lean model of the '
+                'v1 engine (op loadv1) and, for dump-first, vs the dump model. Non-trivial = distinct (class, document) with U non-empty.')
+    n = ctx.quick(600, 7000)
+    reqs, pend = [], []
+    dreqs, dpend = [], []
+    for j in range(n):
+        i = v1streams.OFFSET + j
+        if ctx.done(i):
+            break
+        nm = v1streams.Namer(j)
+        policy = rng.choice(V1_POLICIES)
+        depth = rng.choice([0, 0, 1, 2])
+        ty, target, where = gen_case_v1(rng, policy, depth, nm)
+        tinfo = target['info']
+        catch = policy in ('catchall', 'catchall-default')
+        history = 'load-first'
+        if catch and rng.random() < 0.45:
+            history = 'dump-first'
+        elif catch and depth > 0 and rng.random() < 0.08:
+            history = 'second-root'
+        extra_src = ''
+        if history == 'second-root':
+            extra_src = ('@dataclass\nclass Second(JSONWizard):\n    class _(JSONWizard.Meta):\n        v1 = True\n'
+                         f'    inner_obj: {tinfo["name"]}\n')
+        try:
+            built = model.Built(ty, extra_src=extra_src)
+        except Exception as e:
+            ctx.count('build_error')
+            ctx.notes.setdefault('build_errors', []).append(repr(e)[:300])
+            continue
+        try:
+            x = gen.gen_instance(rng, ty, built, use_defaults_prob=0.2)
+            fnames = [f['name'] for f in tinfo['fields'] if not f.get('catch_all')]
+            base = json.loads(json.dumps(plain_doc(x, ty, built)))
+            inner_doc(base, depth).pop('extras_fld', None)
+            tmeta = tinfo.get('meta') or {}
+            tag_key = tmeta.get('tag_key') or '__tag__'
+            has_tag = tmeta.get('tag') is not None
+            if has_tag and rng.random() < 0.5:
+                inner_doc(base, depth).pop(tag_key, None)
+            k = rng.choice([0, 1, 1, 1, 2, 3])
+            U = {}
+            for key in rng.sample(EXTRA_POOL, k):
+                if unknown_for(key, fnames) and not (has_tag and key == tag_key):
+                    U[key] = rng.choice([1, 'v', None, [1, 2], {'a': 1}, True, 2.5])
+            d = copy.deepcopy(base)
+            tgt = inner_doc(d, depth)
+            items = list(tgt.items())
+            for key, v in U.items():
+                items.insert(rng.randint(0, len(items)), (key, v))
+            tgt.clear()
+            tgt.update(items)
+            reps = rng.choice([1, 2, 3])
+            pre_pairs = {kk: rng.choice([1, 'v', None, [1, 2], {'a': 1}]) for kk in rng.sample(EXTRA_POOL, 2) if unknown_for(kk, fnames)}
+            if not ctx.begin_case(i):
+                continue
+            # unchanged-code finding: a CatchAll field with default_factory is passed positionally, in the wrong slot as soon as a
+            # defaulted field precedes it
+            cfld = next((f for f in tinfo['fields'] if f.get('catch_all')), None)
+            fkey = None
+            if cfld is not None and cfld.get('factory') and any(f.get('dflt') is not None and not f.get('catch_all') for f in tinfo['fields']):
+                fkey = 'v1-catchall-default-factory'
+            case = {'ty': ty, 'doc': repr(d)[:500], 'policy': policy, 'depth': depth, 'U': repr(U), 'reps': reps, 'where': where,
+                    'history': history, 'engine': 'v1', 'tag_in_doc': has_tag and tag_key in inner_doc(d, depth)}
+            kind = 'unknown:v1:' + policy
+            ctx.seen(kind, case, nontrivial=bool(U))
+            src = dict(src=built.source)
+            if history == 'dump-first':
+                # an instance built in code is serialised before the class has ever been loaded
+                ctx.count('v1:dump-first')
+                inst = dig(x, depth)
+                inst.extras_fld = dict(pre_pairs)
+                try:
+                    d0 = asdict(x)
+                except Exception as e:
+                    ctx.fail(kind + ':dump-first', case, f'asdict of an instance built in code raised {e!r}', detail=src)
+                    d0 = None
+                if d0 is not None:
+                    t0 = d0
+                    for _ in range(depth):
+                        t0 = t0.get('innerObj', t0.get('inner_obj'))
+                    for kk, vv in pre_pairs.items():
+                        if kk not in t0 or not ref.same_typed(t0[kk], vv):
+                            ctx.fail(kind + ':dump-first', case, f'first use of the class is a dump: to_dict dropped / changed the catch-all pair {kk!r}: {vv!r}; '
+                                     f'got {t0!r}'[:800], detail=src)
+                            break
+                    try:
+                        st0 = model.StdTables()
+                        st0.add_py(x)
+                        dreqs.append({'op': 'dump', 'inst': model.enc_py(x, built), 'std': st0.build(), 'exclude': None, 'skip_defaults': None})
+                        dpend.append((case, {'ok': model.enc_d(d0)}))
+                    except Exception:
+                        ctx.count('v1:dump_not_encodable')
+            if history == 'second-root':
+                ctx.count('v1:second-root')
+                first = load_outcome(lambda: fromdict(built.root, copy.deepcopy(d)))
+                second = load_outcome(lambda: fromdict(built.get('Second'), {'inner_obj': copy.deepcopy(inner_doc(d, depth))}))
+                if first[0] == 'ok' and (second[0] == 'err' or not ref.same_typed(second[1].inner_obj, dig(first[1], depth))):
+                    key = 'v1-catchall-second-root' if second[0] == 'err' and not isinstance(second[1], JSONWizardError) else None
+                    ctx.fail(kind + ':second-root', case, f'the same document part loads as {dig(first[1], depth)!r} through the first root class, '
+                             f'but through a second root class gives {second[1]!r}'[:800], key=key, detail=src)
+            with _Records() as rec:
+                base_out = load_outcome(lambda: fromdict(built.root, copy.deepcopy(base)))
+                n_base = len(rec.records)
+                outs = []
+                for _ in range(reps):
+                    before = len(rec.records)
+                    outs.append(load_outcome(lambda: fromdict(built.root, copy.deepcopy(d))))
+                    if policy == 'warn' and base_out[0] == 'ok':
+                        warned = len(rec.records) > before
+                        if warned != bool(U):
+                            ctx.fail(kind, case, f'WARN policy: unknown keys {sorted(U)}, a warning was {"" if warned else "not "}logged', detail=src)
+                if policy == 'warn' and n_base:
+                    ctx.fail(kind, case, 'WARN policy: a warning was logged for a document without unknown keys', detail=src)
+            for rep, out in enumerate(outs, 1):
+                check_v1(ctx, kind, case, rep, policy, out, base_out, U, depth, target, built, src, has_tag, tag_key, d, key=fkey)
+            if fkey is None:
+                st = model.StdTables()
+                st.add_json(d)
+                reqs.append({'op': 'loadv1', 'ty': model.enc_ty(ty), 'doc': model.enc_j(d), 'std': st.build()})
+                pend.append((case, outs[-1], built))
+        finally:
+            built.close()
+    if ctx.model_available:
+        outs_m = ctx.driver.run(reqs)
+        for (case, out, built), o_ in zip(pend, outs_m):
+            compare_load(ctx, 'unknown:v1', case, out, o_, built)
+        outs_d = ctx.driver.run(dreqs)
+        for (case, impl), o in zip(dpend, outs_d):
+            if 'err' in o and 'r' not in o:
+                ctx.agree('unknown:v1:dump-model', case, impl, {'driver_error': o['err']})
+                continue
+            r = o['r']
+            if model.has_miss(r):
+                ctx.count('std_miss')
+                continue
+            ctx.agree('unknown:v1:dump-model', case, impl, {'ok': r['ok']} if 'ok' in r else {'err': r['err']})
+
+
+def check_v1(ctx, kind, case, rep, policy, out, base_out, U, depth, target, built, src, has_tag, tag_key, d, key=None):
+    from dataclass_wizard import asdict
+    from dataclass_wizard.errors import UnknownKeysError
+    tname = target['info']['name']
+    if base_out[0] == 'err':
+        ctx.fail(kind, case, f'the document without extra keys does not load: {type(base_out[1]).__name__}: {str(base_out[1])[:300]}', key=key, detail=src)
+        return
+    if policy == 'raise' and U:
+        if out[0] == 'ok':
+            ctx.fail(kind, case, f'call #{rep}: document with unknown key(s) {sorted(U)} was accepted under v1_on_unknown_key=RAISE', key=key, detail=src)
+            return
+        e = out[1]
+        if not isinstance(e, UnknownKeysError):
+            ctx.fail(kind, case, f'call #{rep}: expected UnknownKeysError, got {type(e).__name__}: {str(e)[:200]}', key=key, detail=src)
+            return
+        keys = v1streams.unknown_keys_of(e)
+        if not keys or not set(keys) <= set(U):
+            ctx.fail(kind, case, f'call #{rep}: UnknownKeysError names {keys!r}, the unknown keys of the document are {sorted(U)}', key=key, detail=src)
+        if e.class_name != tname:
+            ctx.fail(kind, case, f'call #{rep}: UnknownKeysError names class {e.class_name!r}, expected {tname!r}', key=key, detail=src)
+        try:
+            assert isinstance(str(e), str)
+        except Exception as ee:
+            ctx.fail(kind, case, f'str(UnknownKeysError) raised {ee!r}', key=key, detail=src)
+        return
+    if out[0] == 'err':
+        e = out[1]
+        extra = f' naming {v1streams.unknown_keys_of(e)!r}' if isinstance(e, UnknownKeysError) else ''
+        ctx.fail(kind, case, f'call #{rep}: load raised {type(e).__name__}{extra}: {str(e)[:300]} (policy {policy}, unknown keys {sorted(U)})', key=key, detail=src)
+        return
+    y, yb = dig(out[1], depth), dig(base_out[1], depth)
+    for f in target['info']['fields']:
+        if f.get('catch_all'):
+            continue
+        if not ref.same_typed(getattr(y, f['name']), getattr(yb, f['name'])):
+            ctx.fail(kind, case, f'call #{rep}: field {f["name"]} = {getattr(y, f["name"])!r} with extra keys, {getattr(yb, f["name"])!r} without', key=key, detail=src)
+            return
+    if policy in ('catchall', 'catchall-default'):
+        got = y.extras_fld
+        cf = next(f for f in target['info']['fields'] if f.get('catch_all'))
+        if U:
+            if not (isinstance(got, dict) and list(got.items()) == [(k, v) for k, v in _in_doc_order(U, d, depth)] and
+                    all(ref.same_typed(got[k], U[k]) for k in U)):
+                ctx.fail(kind, case, f'call #{rep}: catch-all field holds {got!r}, expected exactly {U!r}', key=key, detail=src)
+                return
+            back = asdict(out[1])
+            tgt = back
+            for _ in range(depth):
+                tgt = tgt.get('innerObj', tgt.get('inner_obj'))
+            for k, v in U.items():
+                if k not in tgt or not ref.same_typed(tgt[k], v):
+                    ctx.fail(kind, case, f'call #{rep}: to_dict(from_dict(d)) lost / changed unknown pair {k!r}: {v!r}; got {tgt!r}'[:800], key=key, detail=src)
+                    return
+        else:
+            want = ref.dflt_value(cf['dflt']) if cf.get('dflt') is not None else {}
+            if not ref.same_typed(got, want):
+                ctx.fail(kind, case, f'call #{rep}: no unknown keys, catch-all field holds {got!r}, expected {want!r}', key=key, detail=src)
